@@ -26,7 +26,8 @@ RULE = ('70% E1 / 30% E2 histories driven to a quiescent state (cycle until '
         'quiescent state itself: no eligible pending instance fits any '
         'server. Non-trivial = probe fits, '
         'topology has >=2 servers and >=1 server that does not fit. '
-        'distinct = canonical JSON.')
+        'distinct = canonical JSON.'
+        ' Since rounds 5-7: histories include instances that lost their server outside a cycle and identity groups; a quarter of the E1 probes arrive behind two same-shape instances that are impossible in one dimension each; E2 probes are judged against the quiescent pre-state as well.')
 ASSUMPTIONS = [
     'virtual clock replaces the time module in the scheduler modules',
     'apps ahead of the probe in the queue behave as in the quiescent cycle, '
